@@ -37,6 +37,20 @@ NEEDS = {
  'C20-m1': 'knob made `static inline`: needs calls from two translation units where the later call raises n',
  'C20-m2': 'demos clamp --cores to hardware_concurrency: needs --cores n with n > number of hardware threads',
 }
+def from_readme(src):
+    """(what the change is, what it needs to manifest) taken from the sub-agent's own README.md"""
+    import re
+    p = os.path.join(src, 'README.md')
+    if not os.path.exists(p):
+        return '', ''
+    txt = open(p, errors='replace').read()
+    title = txt.splitlines()[0].lstrip('# ').strip() if txt else ''
+    title = re.sub(r'^C\d+\s*/\s*(m\d|change \d)\s*[-\u2014]+\s*', '', title)
+    m = re.search(r'^##+ *(What it needs[^\n]*|Needs[^\n]*)\n(.*?)(?=^##+ |\Z)', txt, re.S | re.M | re.I)
+    needs = ' '.join(m.group(2).split()) if m else ''
+    return title, needs[:900]
+
+
 def main():
     os.makedirs(DST, exist_ok=True)
     for f in sorted(os.listdir(os.path.join(SEED,'confirm'))):
@@ -63,8 +77,10 @@ def main():
                 if fn.endswith('.o') or fn.startswith('out') and fn.endswith('.txt') and st.st_size>20000: continue
                 os.makedirs(os.path.dirname(os.path.join(d,rel)), exist_ok=True)
                 shutil.copy2(p, os.path.join(d,rel))
+        title, needs = from_readme(src)
         meta={'id':name,'property':r['property'],'origin':'independent sub-agent given only the property text and a scratch worktree',
-              'breaks': NEEDS.get(name,'').split(':')[0], 'needs_to_manifest': NEEDS.get(name,''),
+              'breaks': NEEDS.get(name,'').split(':')[0] if name in NEEDS else title,
+              'needs_to_manifest': NEEDS.get(name) or needs,
               'confirmation': {'worktree': r['worktree'], 'patch_applies': r['patch_applies'], 'builds': r['mutated_build_ok'],
                                'existing_tests_pass': r['ctest_pass'], 'demo_cmd': r['demo_cmd'],
                                'demo_exit_pristine': r['pristine_demo_rc'], 'demo_exit_with_change': r['mutated_demo_rc'],
